@@ -35,6 +35,15 @@ def run(ctx):
     ctx.rule("R12-10", "the text around the braces is kept: the words expand_brace_range records for a token are built from the "
                        "token's own text outside the match (pieces of split / a slice / a replace on the token) as well as "
                        "from the counter - a list made of the formatted numbers alone turns `a{1..3}b` into `1 2 3`")
+    ctx.rule("R12-11", "every pass sees the words the earlier passes produced: in do_expansion a pass runs on every path on "
+                       "which the pass before it ran, or is skipped only by a test computed after that pass (on the "
+                       "tokens as they are then) - a `nothing to do` test made on the typed line misses a `*` or `{` "
+                       "that an alias or a variable brings in")
+    ctx.rule("R12-12", "a group's closing brace is consumed exactly once: in brace_getgroup both returns taken when the next "
+                       "character is `}` (group with a comma: the alternatives; group without: the text put back between "
+                       "braces) hand back the same remainder - the copy of the input from which that character was "
+                       "removed.  One of them returning the unshortened input makes the brace appear twice "
+                       "(`{a,b}{c}` -> `a{c}}`)")
     ctx.rule("R12-4", "the home directory is not interpreted as a regex replacement template")
     for crate in ctx.crates:
         res = etag.run_sites(ctx, "R12-1", crate, fn_filter=lambda p: p in PASSES)
@@ -54,6 +63,8 @@ def run(ctx):
         ctx.floor("R12-7", crate, "passes with a token vector", n_, 4)
         range_rule(ctx, crate)
         range_context_rule(ctx, crate)
+        pass_chain_rule(ctx, crate)
+        group_remainder_rule(ctx, crate)
         home_current_rule(ctx, crate)
         dot_entries_rule(ctx, crate)
 
@@ -420,3 +431,136 @@ def range_context_rule(ctx, crate):
                detail=None if ok else ("the words are the formatted numbers only: text before / after the braces (and any "
                                        "further range in the word) is lost" if numeric is not None else
                                        "the words do not derive from the parsed bounds"))
+
+
+def pass_chain_rule(ctx, crate):
+    de = crate.fn("shell::do_expansion")
+    if not ctx.require(de is not None, "R12-11", "R12-11|anchor", "shell::do_expansion not found"):
+        return
+    ctx.analysed(de)
+    calls = []
+    for bb, t, c in de.calls():
+        ci = de.callee_info(t)
+        if ci is not None and ci.get("local") and c.startswith("shell::") and any(
+                "Vec<(std::string::String, std::string::String)>" in a.get("move", a.get("copy", {})).get("ty", "")
+                for a in t["args"] if "const" not in a):
+            calls.append((bb, c))
+    if not ctx.require(len(calls) >= 7, "R12-11", "R12-11|%s|passes" % de.path,
+                       "expected the 7 pass calls of do_expansion, found %d" % len(calls), de.path):
+        return
+    # source order = order of reachability: a before b when b is reachable from a
+    def reach(src):
+        seen, todo = set(), list(de.succs[src])
+        while todo:
+            x = todo.pop()
+            if x not in seen:
+                seen.add(x)
+                todo.extend(de.succs[x])
+        return seen
+    R = {bb: reach(bb) for bb, c in calls}
+    calls.sort(key=lambda x: -len([1 for y in calls if y[0] in R[x[0]]]))
+    exits = set(de.exits())
+    for i in range(1, len(calls)):
+        prev, cur = calls[i - 1], calls[i]
+        name = cur[1].split("::")[-1]
+        # every path from the previous pass to a return goes through this pass ...
+        always = flow.must_pass(de, prev[0], {cur[0]}, exits)
+        ok, detail = always, None
+        if not always:
+            # ... or each test that lets a path avoid it is computed after the previous pass
+            ok = True
+            avoid = set()
+            seen, todo = set(), list(de.succs[prev[0]])
+            while todo:
+                x = todo.pop()
+                if x in seen or x == cur[0]:
+                    continue
+                seen.add(x)
+                todo.extend(de.succs[x])
+            for x in sorted(seen | {prev[0]}):
+                edges = de.switch_edges(x)
+                if len(edges) < 2:
+                    continue
+                # a deciding test: some edge reaches `cur`, some edge can reach an exit without it
+                t = de.term(x)
+                op = t.get("op") or {}
+                l = (op.get("move") or op.get("copy") or {}).get("l")
+                fresh = False
+                if l is not None:
+                    # the tested local (through plain copies) is assigned only after the previous pass has run
+                    seen_l, todo_l, dbs = set(), [l], []
+                    while todo_l:
+                        y = todo_l.pop()
+                        if y in seen_l:
+                            continue
+                        seen_l.add(y)
+                        for bi, si in de.defs.get(y, []):
+                            stmts = de.blocks[bi]["stmts"]
+                            src = None
+                            if isinstance(si, int) and 0 <= si < len(stmts) and stmts[si]["k"] == "assign":
+                                rv = stmts[si]["rv"]
+                                if rv.get("k") == "use":
+                                    o = rv["op"].get("copy") or rv["op"].get("move")
+                                    if o is not None and not o["p"]:
+                                        src = o["l"]
+                            if src is not None:
+                                todo_l.append(src)
+                            else:
+                                dbs.append(bi)
+                    fresh = bool(dbs) and all(bi in R[prev[0]] for bi in dbs)
+                if not fresh:
+                    ok = False
+                    atom = strip_sites(edges[0][1])
+                    detail = ("%s is skipped on a test (%s) whose operands were computed before %s ran: text that pass "
+                              "produced is not looked at" % (name, render(atom)[:70], prev[1].split("::")[-1]))
+        ctx.ob("R12-11", de.path, "%s runs whenever %s ran (or is skipped by a test made afterwards)" %
+               (name, prev[1].split("::")[-1]), ok, key="R12-11|%s|chain|%s" % (de.path, name), where=de.loc(cur[0]),
+               crate=crate.kind, detail=detail)
+
+
+def group_remainder_rule(ctx, crate):
+    from .c02 import dom_facts
+    b = crate.fn("shell::brace_getgroup")
+    if not ctx.require(b is not None, "R12-12", "R12-12|anchor", "shell::brace_getgroup not found"):
+        return
+    ctx.analysed(b)
+    # returns of Some((words, rest)) taken when the current character is `}`
+    sites = []
+    for bi, si in b.defs.get(0, []):
+        st = b.blocks[bi]["stmts"][si] if isinstance(si, int) and si < len(b.blocks[bi]["stmts"]) else None
+        if st is None or st["k"] != "assign":
+            continue
+        e = strip_sites(b.rvalue_expr(st["rv"]))
+        tup = None
+        for sub in mir.subexprs(e):
+            if sub[0] == "agg" and sub[1] == "tuple" and len(sub[2]) == 2:
+                tup = sub
+        if tup is None:
+            continue
+        closing = any(strip_sites(a)[0] == "bin" and strip_sites(a)[1] == "Eq" and v is True and
+                      mir.const_char(strip_sites(a)[3]) == "}" for a, v in dom_facts(b, bi)) if hasattr(mir, "const_char") else None
+        sites.append((bi, tup[2][1], closing))
+    if hasattr(mir, "const_char"):
+        sites = [x for x in sites if x[2]]
+    if not ctx.require(len(sites) >= 2, "R12-12", "R12-12|%s|returns" % b.path,
+                       "expected two `Some((words, rest))` returns under `c == '}'`, found %d" % len(sites), b.path):
+        return
+    # which locals had their first character removed
+    shortened = set()
+    for bb, t, c in b.calls():
+        if last_seg(c) == "remove" and "String" in c:
+            a = b.call_args(bb)
+            if a:
+                shortened.add(mir.root_local_expr(strip_sites(a[0])))
+    roots = []
+    for bi, rest, _ in sites:
+        r = mir.peel(strip_sites(rest))
+        roots.append(mir.root_local_expr(r) if r[0] in ("var", "tmp", "param") else None)
+    same = len(set(roots)) == 1 and roots[0] is not None
+    consumed = all(r in shortened for r in roots)
+    ok = same and consumed
+    names = [b.names.get(r, "_%s" % r) for r in roots]
+    ctx.ob("R12-12", b.path, "both `}` returns hand back the shortened remainder (%s)" % ", ".join(names), ok,
+           key="R12-12|%s|closing-brace-consumed" % b.path, where=b.loc(sites[-1][0]), crate=crate.kind,
+           detail=None if ok else "the returns under `c == '}'` disagree on the remainder (%s): one of them leaves the brace "
+           "in the text still to be scanned, and it is emitted a second time" % " vs ".join(names))
